@@ -20,6 +20,10 @@ type World struct {
 	conns  []*Conn
 	// DialFail makes free-mode dials fail this many times.
 	DialFail int
+	// Frame, when set, is sent by the broker right after CONNACK on the first connection (framing runs).
+	Frame []*codec.Packet
+	// Idle is signalled when a reader finds nothing to read and no read plan left.
+	Idle chan int
 	// AutoBroker lets the broker react to every client write at once, also in gated mode.
 	AutoBroker bool
 	// CloseErr makes Conn.Close return an error (after closing).
@@ -113,6 +117,7 @@ type Conn struct {
 	b2c      []byte       // bytes the broker sent, not yet read
 	b2cAll   codec.Stream // everything delivered to the client so far
 	sent     codec.Stream // everything the broker sent so far (read or not)
+	plan     []PlanStep   // scripted outcomes of the next Read calls (framing runs)
 	eof      bool         // broker closed its side after the queue drains
 	closed   bool
 	closedBy string
@@ -181,7 +186,7 @@ func (c *Conn) IsClosed() bool {
 
 // Brief is the compact form of a packet used in events.
 func Brief(p *codec.Packet) map[string]any {
-	m := map[string]any{"t": p.T, "id": p.ID, "qos": p.QoS, "dup": p.Dup, "retain": p.Retain, "tag": p.Tag, "len": p.Len,
+	m := map[string]any{"t": p.T, "id": p.ID, "qos": p.QoS, "dup": p.Dup, "retain": p.Retain, "tag": p.Tag, "len": p.Len, "sum": p.Sum,
 		"topic": p.Topic, "filt": p.Filt, "codes": p.Codes, "sp": p.SP, "rc": p.RC, "bad": p.Bad, "clean": false}
 	if p.Filt == nil {
 		m["filt"] = []string{}
@@ -279,6 +284,43 @@ func (c *Conn) Read(b []byte) (int, error) {
 	c.mu.Lock()
 	if o.Kind == "free" {
 		// free mode: block until bytes, end of stream or close
+		// scripted fragmentation
+		for len(c.plan) > 0 && len(c.b2c) > 0 && !c.closed && !c.dead {
+			st := &c.plan[0]
+			if st.Stall {
+				c.plan = c.plan[1:]
+				if !c.rdArmed {
+					continue // no deadline is armed here: the pause is not an expiry
+				}
+				c.mu.Unlock()
+				c.w.Rec.Emit(Ev{"e": "cr", "c": c.id, "p": me, "n": 0, "err": "timeout", "pk": []any{}, "tail": 0, "armed": true, "ferr": ""})
+				return 0, timeoutErr{}
+			}
+			k := st.N
+			if k > len(b) {
+				k = len(b)
+			}
+			if k > len(c.b2c) {
+				k = len(c.b2c)
+			}
+			st.N -= k
+			if st.N <= 0 {
+				c.plan = c.plan[1:]
+			}
+			n := copy(b, c.b2c[:k])
+			c.b2c = c.b2c[n:]
+			got := c.b2cAll.Feed(b[:n])
+			tail := c.b2cAll.Tail()
+			c.mu.Unlock()
+			c.w.Rec.Emit(Ev{"e": "cr", "c": c.id, "p": me, "n": n, "err": "", "pk": pkList(got), "tail": tail, "armed": armed, "ferr": ""})
+			return n, nil
+		}
+		if len(c.b2c) == 0 && !c.closed && !c.eof && !c.dead && !c.rdArmed && c.w.Idle != nil {
+			select {
+			case c.w.Idle <- c.id:
+			default:
+			}
+		}
 		waited := false
 		for len(c.b2c) == 0 && !c.closed && !c.eof && !c.dead {
 			if c.rdArmed {
@@ -347,6 +389,19 @@ var errEOF = errors.New("EOF")
 func init() {
 	// io.EOF without importing io at the top for one use
 	errEOF = eofError()
+}
+
+// PlanStep is one scripted Read outcome: deliver N bytes, or a deadline expiry.
+type PlanStep struct {
+	N     int
+	Stall bool
+}
+
+// SetPlan scripts the next Read calls.
+func (c *Conn) SetPlan(p []PlanStep) {
+	c.mu.Lock()
+	c.plan = p
+	c.mu.Unlock()
 }
 
 // Inject queues broker-to-client bytes.
